@@ -286,6 +286,49 @@ func (g *Gen) havocField(st *State, key string) {
 	}
 }
 
+// havocFieldDeep: a write to (or a callee that modifies) Type.field may also be a write to the copy of
+// Type that another struct holds by value, which lives under a path key; those are havocked with it,
+// as are the offset/length arrays of a slice-typed field, whether or not they have been mentioned yet
+// (a key that is first read after the havoc must not read the entry heap).
+func (g *Gen) havocFieldDeep(st *State, key string) {
+	reg := func(k, like string) {
+		if _, ok := g.heapSort[k]; !ok {
+			g.heapSort[k] = g.heapSort[like]
+		}
+		if fieldIsSlice[like] {
+			for _, sfx := range []string{"#off", "#len"} {
+				if _, ok := g.heapSort[k+sfx]; !ok {
+					g.heapSort[k+sfx] = "(Array Int Int)"
+				}
+			}
+		}
+	}
+	if strings.Contains(key, "#") {
+		g.havocField(st, key)
+		return
+	}
+	if _, ok := g.heapSort[key]; !ok {
+		srt, known := fieldSorts[key]
+		switch {
+		case !known:
+			return // not a struct field of the program (a synthetic key nobody has used yet)
+		case srt == "?":
+			g.havocAllFields(st) // same Type.field name with different sorts in two packages: give up precision
+			return
+		}
+		g.heapSort[key] = srt
+	}
+	reg(key, key)
+	g.havocField(st, key)
+	if i := strings.Index(key, "."); i > 0 && strings.Count(key, ".") == 1 {
+		for _, p := range nestPaths[key[:i]] {
+			k := p + key[i:]
+			reg(k, key)
+			g.havocField(st, k)
+		}
+	}
+}
+
 func (g *Gen) havocAllFields(st *State) {
 	for _, k := range sortedKeysS(g.heapSort) {
 		g.havocField(st, k)
@@ -434,7 +477,7 @@ func (g *Gen) execFunc(fn *ssa.Function, st *State, top bool, start *ssa.BasicBl
 				g.havocHs(cur, nil, true)
 			} else {
 				for _, key := range sortedKeysB(le.fields) {
-					g.havocField(cur, key)
+					g.havocFieldDeep(cur, key)
 				}
 				if le.elems {
 					written := g.memModRefs(cur)
@@ -602,7 +645,14 @@ func (g *Gen) doReturn(st *State, x *ssa.Return, res []Val) {
 	k := g.ord("ret")
 	for i, e := range g.c.Ensures {
 		n := len(g.obls)
-		g.oblige(st, "post", fmt.Sprintf("ensures[%s]@ret%d", clauseName(e, i), k), g.line(x.Pos()), g.spec(st, e.Expr, env2))
+		goal, ante := g.specAnte(st, e.Expr, env2)
+		if g.retReach != nil {
+			if ante == "" {
+				ante = "true"
+			}
+			g.retReach[i] = append(g.retReach[i], fmt.Sprintf("(and %s %s)", st.pc, ante))
+		}
+		g.oblige(st, "post", fmt.Sprintf("ensures[%s]@ret%d", clauseName(e, i), k), g.line(x.Pos()), goal)
 		if len(g.obls) > n {
 			g.obls[n].Props = e.Props
 		}
